@@ -12,4 +12,5 @@ Separate Extraction
   Service.cap Service.started Service.dying Service.kill Service.protected Service.sp Service.ap
   Service.subs Service.queue Service.store Service.futs Service.nextn Service.issued Service.itags
   Service.dispatched Service.dtags Service.drained Service.resubs Service.ready Service.gen
-  ServiceSpec.spec_resub ServiceSpec.resub_ok ServiceSpec.subseq_b ServiceSpec.fifo_ok.
+  ServiceSpec.spec_resub ServiceSpec.resub_ok ServiceSpec.subseq_b ServiceSpec.fifo_ok
+  ServiceSpec.scan ServiceSpec.is_sup_event ServiceSpec.life_step ServiceSpec.life_ok ServiceSpec.gate_step ServiceSpec.gate_ok.
